@@ -1,5 +1,6 @@
 import OtelVerif.Common.Line
 import OtelVerif.Model.C19Exp
+import OtelVerif.Model.C03Replay
 /-! driver for C19, exporter clause (model `c19-exp`); imported by `Drivers/C19.lean` -/
 open OtelVerif OtelVerif.Line
 
@@ -21,6 +22,15 @@ structure XS where
   gaugeMissing : Bool := false
   skipped : Bool := false
   bad : Option String := none
+  -- for the replay of the trace through the LTS
+  batch : Nat := 0
+  wrap : Bool := false
+  consumers : Nat := 1
+  retry : Bool := false
+  wfr : Bool := false
+  itemsSized : Bool := false
+  returned : Bool := false
+  tevs : List OtelVerif.C03.Replay.TEv := []
 
 def expHandler : Handler XS where
   init := {}
@@ -28,7 +38,10 @@ def expHandler : Handler XS where
     match toks with
     | "cfg" :: rest =>
       match kvNat rest "persistent", kvNat rest "queue", kvNat rest "wfr" with
-      | some p, some _, some _ => ({ s with persistent := p == 1 }, [])
+      | some p, some q, some w =>
+        ({ s with persistent := p == 1, batch := (kvNat rest "batch").getD 0, wrap := kvNat rest "wrap" == some 1,
+                  consumers := (kvNat rest "consumers").getD 1, retry := kvNat rest "retry" == some 1,
+                  wfr := w == 1 || q == 0, itemsSized := kv rest "sizer" == some "items" && q == 1 }, [])
       | _, _, _ => (s, ["obs bad-op"])
     | ["act", at_, "shutdown"] => if at_.toNat?.isSome then (s, []) else (s, ["obs bad-op"])
     | ["act", at_, "send", rid, n] =>
@@ -38,23 +51,39 @@ def expHandler : Handler XS where
     | _ => (s, ["obs bad-op"])
   onObs := fun s toks =>
     match toks with
-    | ["tr", "acc", _, ids] =>
-      match xParseIds ids with
-      | some is => { s with evs := .acc is :: s.evs, lateAcc := if s.shutReq then is :: s.lateAcc else s.lateAcc }
-      | none => { s with bad := some "acc" }
-    | ["tr", "rej", _, ids] =>
-      match xParseIds ids with
-      | some is => { s with evs := .rej is :: s.evs }
-      | none => { s with bad := some "rej" }
+    | ["tr", "acc", rid, ids] =>
+      match rid.toNat?, xParseIds ids with
+      | some rid, some is =>
+        { s with evs := .acc is :: s.evs, lateAcc := if s.shutReq then is :: s.lateAcc else s.lateAcc, tevs := .acc rid is :: s.tevs }
+      | _, _ => { s with bad := some "acc" }
+    | ["tr", "rej", rid, ids] =>
+      match rid.toNat?, xParseIds ids with
+      | some rid, some is => { s with evs := .rej is :: s.evs, tevs := .rej rid is :: s.tevs }
+      | _, _ => { s with bad := some "rej" }
+    | ["tr", "ss", rid, ids] =>
+      match rid.toNat?, xParseIds ids with
+      | some rid, some is => { s with tevs := .ss rid is :: s.tevs }
+      | _, _ => { s with bad := some "ss" }
     | ["tr", "es", c, ids] =>
       match c.toNat?, xParseIds ids with
-      | some c, some is => { s with evs := .es c is :: s.evs }
+      | some c, some is => { s with evs := .es c is :: s.evs, tevs := .es c is :: s.tevs }
       | _, _ => { s with bad := some "es" }
-    | ["tr", "ee", c, f] =>
-      match c.toNat?, f.toNat? with
-      | some c, some f => { s with evs := .ee c (f == 1) :: s.evs }
-      | _, _ => { s with bad := some "ee" }
-    | ["tr", "shutreq"] => { s with shutReq := true }
+    | ["tr", "ee", c, f, pm, lf] =>
+      match c.toNat?, f.toNat?, pm.toNat?, lf.toNat? with
+      | some c, some f, some pm, some lf =>
+        { s with evs := .ee c (f == 1) :: s.evs, tevs := .ee c (f == 1) (pm == 1) (lf == 1) :: s.tevs }
+      | _, _, _, _ => { s with bad := some "ee" }
+    | "tr" :: "ms" :: rest =>
+      match kvNat rest "first", (kv rest "cur").bind xParseIds, (kv rest "req").bind xParseIds, kv rest "res", kvNat rest "keep", kvNat rest "err" with
+      | some f, some cur, some req, some res, some k, some er =>
+        if er == 1 then s else
+        match (if res = "-" then some [] else (res.splitOn ";").mapM xParseIds) with
+        | some rl => { s with tevs := .ms (f == 1) cur req rl (k == 1) :: s.tevs }
+        | none => { s with bad := some "ms" }
+      | _, _, _, _, _, _ => { s with bad := some "ms" }
+    | ["tr", "shutreq"] => { s with shutReq := true, tevs := .shutreq :: s.tevs }
+    | ["tr", "shutret", _] => { s with returned := true, tevs := .shutret :: s.tevs }
+    | ["tr", "wshut"] => { s with tevs := .wshut :: s.tevs }
     | ["tr", "stored", ids] =>
       match xParseIds ids with
       | some is => { s with stored := is }
@@ -102,7 +131,60 @@ def expHandler : Handler XS where
           if g.2.1 != g.2.2.2 then s!"prop gauges=FAIL sig=C19/exporter/capacity-gauge-not-configured-capacity got={g.2.1} want={g.2.2.2}"
           else s!"prop gauges=FAIL sig=C19/exporter/size-gauge-not-queue-size got={g.1} want={g.2.2.1.getD 0}"
         | false, none => "prop gauges=ok"
-      [obs, pBal, pGauge]
+      -- counters as functions of the LTS state reached by replaying the trace through `fire` (sentOf / failedOf / enqFailedWfrOf)
+      let batching := s.batch != 0
+      let pLts :=
+        if !s.returned || (batching && !s.wrap) then "prop lts=skipped" else
+        let tr := s.tevs.reverse
+        let rc : OtelVerif.C03.Replay.RCfg :=
+          { cfg := { persistent := s.persistent, batching := batching, retry := s.retry, wfr := s.wfr, itemsSized := s.itemsSized }
+            nCons := if batching then 1 else s.consumers
+            workers := if batching then 1 else 0
+            timer := batching
+            stored := s.stored
+            sends := tr.filterMap (fun e => match e with | .ss rid ids => some (rid, ids) | _ => none) }
+        let rs := OtelVerif.C03.Replay.replay rc tr
+        match rs.err, s.impl with
+        | some (k, d), _ => s!"prop lts=FAIL sig=C19/exporter/trace-not-a-run-of-the-model/{k} {d.replace " " "_"}"
+        | none, none => "prop lts=FAIL sig=C19/exporter/no-counters"
+        | none, some (a, b, c) =>
+          let refused := ((t.flatMap (fun e => match e with | .rej is => if is.any attempted then [] else is | _ => [])).length)
+          let ms := OtelVerif.C19.sentOf rs.s
+          let mf := OtelVerif.C19.failedOf rs.s
+          let me := refused + OtelVerif.C19.enqFailedWfrOf rs.s
+          if a = ms && b = mf && c = me then "prop lts=ok"
+          else s!"prop lts=FAIL sig=C19/exporter/counters-differ-from-lts-state impl={a}/{b}/{c} lts={ms}/{mf}/{me}"
+      -- size gauge against the LTS state at the instant it was read (a quiescent point just before the shutdown request):
+      -- the model's `qsize` (released by `completedBy`, i.e. when every piece of a request has ended its flight) plus the
+      -- requests that sit in the real queue but that the lazy replay has not enqueued yet
+      let pGaugeLts :=
+        if s.persistent || (batching && !s.wrap) then "prop gaugelts=skipped" else
+        match s.gauges.head? with
+        | some (sz, _, some _, _) =>
+          let tr := s.tevs.reverse
+          let pre := tr.takeWhile (fun e => match e with | .shutreq => false | _ => true)
+          let rc : OtelVerif.C03.Replay.RCfg :=
+            { cfg := { persistent := s.persistent, batching := batching, retry := s.retry, wfr := s.wfr, itemsSized := s.itemsSized }
+              nCons := if batching then 1 else s.consumers
+              workers := if batching then 1 else 0
+              timer := batching
+              stored := s.stored
+              sends := tr.filterMap (fun e => match e with | .ss rid ids => some (rid, ids) | _ => none) }
+          -- look-ahead over the whole trace, events only up to the request
+          let rs := OtelVerif.C03.Replay.goUntilShutreq rc { s := OtelVerif.C03.init rc.cfg rc.nCons rc.workers rc.timer } tr
+          match rs.err with
+          | some (k, d) => s!"prop gaugelts=FAIL sig=C19/exporter/trace-not-a-run-of-the-model/{k} {d.replace " " "_"}"
+          | none =>
+            let accepted := pre.filterMap (fun e => match e with | .acc rid ids => some (rid, ids) | _ => none)
+            let started := pre.filterMap (fun e => match e with | .ss rid ids => some (rid, ids) | _ => none)
+            let rejected := pre.filterMap (fun e => match e with | .rej rid _ => some rid | _ => none)
+            let inQueue := if s.wfr then started.filter (fun p => !rejected.contains p.1 && !(accepted.map (·.1)).contains p.1) else accepted
+            let waiting := inQueue.filter (fun p => !rs.offered.contains p.1)
+            let want : Int := rs.s.qsize + ((waiting.map (fun p => OtelVerif.C03.reqSize rc.cfg p.2)).sum : Nat)
+            if sz = want then "prop gaugelts=ok"
+            else s!"prop gaugelts=FAIL sig=C19/exporter/size-gauge-differs-from-lts-qsize got={sz} lts={rs.s.qsize} waiting={waiting.length} want={want}"
+        | _ => "prop gaugelts=skipped"
+      [obs, pBal, pGauge, pLts, pGaugeLts]
 
 
 end OtelVerif.Drivers.C19Exp
